@@ -5,11 +5,11 @@ package main
 // along one call chain (frames bind callee parameters to caller arguments).
 
 import (
-	"os"
 	"fmt"
 	"go/constant"
 	"go/token"
 	"go/types"
+	"os"
 	"sort"
 	"strconv"
 	"strings"
